@@ -947,6 +947,12 @@ def replay_sorting(viol):
         ("catch(sort([c,d|foo], L), error(E, _), true), show(E)", "type_error(list,[c,d|foo])"),
         ("catch(sort([c,d|_], L), error(E, _), true), show(E)", "instantiation_error"),
         ("keysort([a-1], L), show(L)", "[a-1]"),
+        # equal numbers in separately allocated cells are duplicates; non-ASCII strings keep their characters
+        ("X is 2^80, Y is 2^80, sort([X,7,Y], L), show(L)", "[7,1208925819614629174706176]"),
+        ("X is 1 rdiv 3, Y is 2 rdiv 6, sort([X,Y,X], L), length(L, N), show(N)", "1"),
+        ("X is 2^80, Y is 2^80, sort([f(X),f(Y)], L), length(L, N), show(N)", "1"),
+        ("sort(\"z\u00e9a\", L), show(L)", "[a,z,\u00e9]"),
+        ("atom_codes(A, [0'b, 0x20AC, 0'a]), atom_chars(A, Cs), sort(Cs, L), length(L, N), show(N)", "3"),
         ("numlist(1, 60, Ns), findall(K-N, (member(N, Ns), K is N mod 3), Ps), keysort(Ps, L), "
          "findall(N, member(0-N, L), Zs), ( msort_check(Zs) -> show(stable) ; show(Zs) )", "stable"),
     ]
